@@ -213,22 +213,73 @@ pub fn random_source(rng: &mut Rng, w: i32, h: i32, solid_weight: u64) -> SrcSpe
     }
 }
 
+/// the same source with one ingredient changed (the other ingredients stay bit-identical): what an
+/// implementation may remember about a source must be keyed by all of them
+pub fn vary_source(rng: &mut Rng, s: &SrcSpec) -> SrcSpec {
+    let mut v = s.clone();
+    let bump = |rng: &mut Rng, stops: &mut Vec<Stop>| {
+        let k = rng.below(stops.len() as u64) as usize;
+        let c = rng.below(4) as usize;
+        stops[k].argb[c] = stops[k].argb[c].wrapping_add(*rng.pick(&[1u8, 64, 128, 255]));
+    };
+    let shift = |rng: &mut Rng, p: &mut (f32, f32)| {
+        p.0 += *rng.pick(&[0.5f32, -1.0, 3.0]);
+        p.1 += *rng.pick(&[0.0f32, 1.0, -2.5]);
+    };
+    let which = rng.below(3);
+    match &mut v {
+        SrcSpec::Solid(p) => *p = premul_pixel(rng),
+        SrcSpec::Image { data, repeat, bilinear, transform, .. } => match which {
+            0 => {
+                let k = rng.below(data.len() as u64) as usize;
+                data[k] = premul_pixel(rng);
+            }
+            1 => *transform = transform.then_translate(euclid::vec2(0.5, -1.0)),
+            _ => {
+                if rng.chance(0.5) { *repeat = !*repeat } else { *bilinear = !*bilinear }
+            }
+        },
+        SrcSpec::Linear { stops, start, end, spread } => match which {
+            0 => bump(rng, stops),
+            1 => { if rng.chance(0.5) { shift(rng, start) } else { shift(rng, end) } }
+            _ => *spread = (*spread + 1) % 3,
+        },
+        SrcSpec::Radial { stops, center, radius, spread } => match which {
+            0 => bump(rng, stops),
+            1 => { if rng.chance(0.5) { shift(rng, center) } else { *radius *= 1.5 } }
+            _ => *spread = (*spread + 1) % 3,
+        },
+        SrcSpec::TwoCircle { stops, c1, r1, c2, spread, .. } => match which {
+            0 => bump(rng, stops),
+            1 => { if rng.chance(0.3) { shift(rng, c1) } else if rng.chance(0.5) { shift(rng, c2) } else { *r1 *= 0.5 } }
+            _ => *spread = (*spread + 1) % 3,
+        },
+        SrcSpec::Sweep { stops, center, start_angle, spread, .. } => match which {
+            0 => bump(rng, stops),
+            1 => { if rng.chance(0.5) { shift(rng, center) } else { *start_angle += 10. } }
+            _ => *spread = (*spread + 1) % 3,
+        },
+    }
+    v
+}
+
 pub fn random_alpha(rng: &mut Rng) -> f32 {
-    match rng.below(8) {
+    match rng.below(9) {
         0 => 0.0,
         1 => 1.0 / 255.0,
         2 => 0.5,
-        3 | 4 => 1.0,
+        3 | 4 | 8 => 1.0,
         5 => 254.0 / 255.0,
         _ => rng.f64() as f32,
     }
 }
 
 pub fn random_mode(rng: &mut Rng) -> BlendMode {
-    if rng.chance(0.3) {
-        BlendMode::SrcOver
-    } else {
-        MODES[rng.below(28) as usize].0
+    match rng.below(10) {
+        0 | 1 | 2 => BlendMode::SrcOver,
+        // the modes that erase or replace the destination wherever the source does not cover it
+        3 | 4 => *rng.pick(&[BlendMode::Src, BlendMode::Clear, BlendMode::SrcIn, BlendMode::DstIn, BlendMode::SrcOut, BlendMode::DstAtop]),
+        _ => MODES[rng.below(28) as usize].0,
     }
 }
 
